@@ -449,6 +449,12 @@ def resize_fill(F, S):
 
 def check(F, run, tier):
     S = Summaries(F)
+    # refusals at the edge of an integer type's range are exact (neither the largest representable value is turned away nor
+    # the first unrepresentable one let through), wherever in the library they are made
+    from ..rules_stream import capacity_refusals_exact
+    _oc, _nc = capacity_refusals_exact(F, S, ["/src/"])
+    run.add(_oc)
+    run.floor("capacity-refusals", _nc, 33)
     # a failed or short file read must not leave the shared stream failed: later seeks and reads on the same reader would be ignored
     from ..rules_archive import r_fstream
     for _nm in ("ReadImplementation", "ReadPartial"):
